@@ -610,10 +610,15 @@ pub fn run_scenario(sc: &Scenario, domain: u16, prop: SProp, acc: &mut Acc, tag:
 
   // ---- settle: the local participant matches its own reader/writer pairs (same topic)
   // right after creation; those matches are the baseline of every set.
+  // How many such matches there must be is known (the participant's own compatible reader/writer pairs on a topic,
+  // one event on each side), so the baseline is taken only when all of them have been seen: on a loaded machine
+  // the participant may need longer than any fixed quiet period to discover itself.
+  let expected_self_events: usize = 2 * (0..sc.reader_q.len()).flat_map(|r| (0..sc.writer_q.len()).map(move |w| (r, w))).filter(|(r, w)| r % 2 == w % 2 && qosref::incompatible(&sc.writer_q[*w], &sc.reader_q[*r]).is_empty()).count();
+  let mut self_events_seen = 0usize;
   {
     let mut quiet_since = Instant::now();
     let t0 = Instant::now();
-    while t0.elapsed().as_secs_f64() < 4.0 && quiet_since.elapsed().as_secs_f64() < 0.5 {
+    while t0.elapsed().as_secs_f64() < 15.0 && (self_events_seen < expected_self_events || quiet_since.elapsed().as_secs_f64() < 0.5) {
       let evts = local.drain_endpoint_events();
       if !evts.is_empty() {
         quiet_since = Instant::now();
@@ -623,6 +628,7 @@ pub fn run_scenario(sc: &Scenario, domain: u16, prop: SProp, acc: &mut Acc, tag:
           let st = if is_local_reader { &mut lr[li] } else { &mut lw[li] };
           if current_change > 0 {
             st.set.insert(remote);
+            self_events_seen += 1;
           } else {
             st.set.remove(&remote);
           }
@@ -633,6 +639,11 @@ pub fn run_scenario(sc: &Scenario, domain: u16, prop: SProp, acc: &mut Acc, tag:
       let _ = local.drain_participant_events();
       std::thread::sleep(StdDuration::from_millis(10));
     }
+  }
+  if self_events_seen < expected_self_events {
+    acc.inconclusive.push(format!("the local participant reported {self_events_seen} of its {expected_self_events} own reader/writer matches within 15 s: no baseline, scenario not run"));
+    out.aborted = true;
+    return out;
   }
   for st in lr.iter_mut().chain(lw.iter_mut()) {
     st.base = st.set.clone();
